@@ -545,6 +545,9 @@ type Exchange struct {
 	Outcome string `json:"outcome"` // ok / silent / cancel / rst / badblock / garbage / dup / werr / notfound
 	ID      int    `json:"id"`
 	Size    int    `json:"size,omitempty"`
+	// NoDeadline: the caller's context carries no deadline (cancel-only; the harness cancels it when the same time has
+	// passed) - state whose lifetime is derived from the request's deadline must then fall back to its own expiry
+	NoDeadline bool `json:"context_without_deadline,omitempty"`
 }
 
 type Result struct {
@@ -576,6 +579,12 @@ func (p *Pair) Run(x Exchange, rnd *rand.Rand, hk *Hooks) Result {
 		timeout = time.Duration(20+rnd.Intn(40)) * time.Millisecond
 	}
 	ctx, cancel := context.WithTimeout(context.Background(), timeout)
+	if x.NoDeadline {
+		cancel()
+		ctx, cancel = context.WithCancel(context.Background())
+		t := time.AfterFunc(timeout, cancel)
+		defer t.Stop()
+	}
 	defer cancel()
 	if x.Outcome == "cancel" {
 		d := time.Duration(rnd.Intn(300)) * time.Microsecond
